@@ -57,7 +57,33 @@ def hev_to_val(e):
     if t == 'rtimer': return [5]
     if t == 'ltimer': return [6, e[1]]
     if t == 'force': return [7]
+    if t == 'sib_open': return [9]
+    if t == 'sib_fail': return [10, e[1]]
+    if t == 'sib_up':
+        # ('sib_up', fams, gr, ll, (remote gr, remote llgr), hold): the neighbour's OPEN on its second connection; the
+        # local capabilities are those of the last 'up'; (gr, ll) is what they negotiate with the remote ones
+        g = lambda x: [] if x is None else [[list(x[0]), x[1], cap_flags(x[2])]]
+        l = lambda x: [] if x is None else [[list(p) for p in x]]
+        return [11, g(e[4][0]), l(e[4][1]), e[5]]
     return [8, 1 if e[1] else 0]
+
+SIB_EVENTS = ('sib_open', 'sib_fail', 'sib_up')
+
+def cev_to_coq(e):
+    t = e[0]
+    if t == 'sib_open': return 'CSibOpen'
+    if t == 'sib_fail': return 'CSibFail'
+    if t == 'sib_up':
+        gr = 'None' if e[2] is None else '(Some (%s, %s, %s))' % (cfams(e[2][0]), cN(e[2][1]), cbool(e[2][2]))
+        ll = 'None' if e[3] is None else '(Some %s)' % cpairs(e[3])
+        return '(CSibUp %s %s %s)' % (cfams(e[1]), gr, ll)
+    return '(CBase %s)' % hev_to_coq(e)
+
+def sib_up(upev, rgr, rll, hold=90):
+    """the second connection reaches Established: local capabilities of the session `upev`, remote ones as given"""
+    lgr, _, lll, _ = upev[4] if len(upev) > 4 else default_caps(upev[2], upev[3])
+    gr, ll = negotiate(lgr, rgr, lll, rll)
+    return ('sib_up', upev[1], gr, ll, (rgr, rll), hold)
 
 def hev_to_coq(e):
     t = e[0]
@@ -169,15 +195,21 @@ def known_classes(evs):
 class Prop:
     pid = 'C10'
     props_file = 'Props/C10.v'
-    required_theorems = ['helper_mode_entry_arms_timer', 'drop_never_leaves_helper_mode', 'stale_implies_timer_or_eor', 'phase_timer_consistency', 'failed_reconnect_keeps_timer', 'no_llgr_dropped_at_llgr_start', 'no_llgr_dropped_at_llgr_only_drop', 'fresh_routes_survive_purge', 'live_session_routes_survive_purge', 'purged_by_expiry_or_eor', 'non_negotiated_families_dropped_at_once', 'non_gr_reasons_retain_nothing', 'eligibility_is_as_stated']
+    required_theorems = ['helper_mode_entry_arms_timer', 'drop_never_leaves_helper_mode', 'stale_implies_timer_or_eor', 'phase_timer_consistency', 'failed_reconnect_keeps_timer', 'no_llgr_dropped_at_llgr_start', 'no_llgr_dropped_at_llgr_only_drop', 'fresh_routes_survive_purge', 'live_session_routes_survive_purge', 'purged_by_expiry_or_eor', 'non_negotiated_families_dropped_at_once', 'non_gr_reasons_retain_nothing', 'eligibility_is_as_stated',
+                         'stale_implies_timer_or_eor_two_connections', 'second_connection_does_not_suppress_helper_mode']
     correspondence_name = ('Model/Gr.v gr_step vs daemon/src/gr.rs GrState::process (harness/daemon/gr_hx.rs); '
-                           'Model/Gr.v h_step vs apply_disconnect / process_effects / timer handlers / unregister_peer on a real '
+                           'Model/Gr.v h_step / c_step vs apply_disconnect / process_effects / timer handlers / unregister_peer on a real '
                            'PeerContext + TableManager (harness/daemon/event_gr_hx.rs)')
     rule = ('pure machine: every input sequence of length <= d over a 13-letter alphabet (2 families, GR/LLGR parameter classes) '
             'plus seeded random sequences; glue: seeded random event histories of one peer (up with derived local/remote GR and LLGR '
             'capabilities, announce with two path ids per prefix, eor, down with each reason class, failed connect, timer expiries, '
             'force-down, admin-down), including reconnects that do / do not re-negotiate GR/LLGR, GR/LLGR families outside each other '
-            'and outside the session families; a case is non-trivial when a route is retained stale at some step; '
+            'and outside the session families; enumerated histories with a second connection of the same neighbour in the other slot '
+            'of the ConnArbiter (first session in either slot) around the drop of the Established GR/LLGR session: open and still in '
+            'OpenSent when the session drops, ending afterwards in OpenSent / OpenConfirm, ending before the drop, losing the collision '
+            'against the Established session, reaching Established after the drop with the same GR / without GR / with a GR subset / '
+            'during the LLGR period, forced down together, admitted before admin-down; plus a random mode with such events; '
+            'a case is non-trivial when a route is retained stale at some step; '
             'distinct = distinct observation trajectories')
     exhaustive = {'quick': True, 'thorough': True}
     trusted_base = ['every session of a glue history is a real PeerSession::run() (session_loop with its select loop and its '
@@ -189,7 +221,11 @@ class Prop:
                     'session\'s close channel, a prefix limit of 0 on a never-announced family for the local Cease',
                     'every session is built by the real accept_connection() from the Peer record (Global::add_peer) of the address '
                     'the connection comes from, which also registers its close channel with the ConnArbiter and refuses an admin-down peer '
-                    'or a second connection; force_down() therefore closes a live session for real',
+                    'or a second connection of the same role; force_down() therefore closes a live session for real',
+                    'a second connection of the neighbour is a second real accept_connection() / PeerSession::run() with the other Role '
+                    'on its own loopback socket while the first one is registered: both slots of the real ConnArbiter / PeerFsm are in use, '
+                    'the collision is resolved by the real PeerFsm::check_collision, each connection ends through its own session_loop / '
+                    'apply_disconnect',
                     'hand-built by the harness: before each connection the local capabilities of the case are written into '
                     'Peer.config.local_cap and a PeerFsm sending them is put into the PeerContext (they differ from session to session; the '
                     'daemon derives them once from the configuration); the admin_down field is set directly on the Peer record (not '
@@ -200,7 +236,9 @@ class Prop:
                     'timers are fired through their oneshot sender (the RunNow path); a timer counts as armed while its sender is '
                     'present and not closed; wall-clock expiry of the restart / LLGR timers is not exercised (the hold timer is: really waited for)']
     assumptions = ['one peer, one shard; the restarting-speaker role (selection_deferral) is inactive',
-                   'at most one Established session at a time (property C07)',
+                   'at most one Established session at a time (property C07); at most one further connection of the same neighbour, '
+                   'which is before Established; no new connection of the first role is opened while the second one is pending '
+                   '(two pending connections and their OpenConfirm / OpenConfirm collision are C07\'s)',
                    'a route is identified by (family, prefix, path id); attributes other than the NO_LLGR / LLGR_STALE communities, '
                    'best-path order and distribution to other peers are outside the model']
 
@@ -209,6 +247,8 @@ class Prop:
             return [2, c['rk'], c['code'], c['sub'], 1 if c['nbit'] else 0]
         if c['kind'] == 'gr':
             return [1, [grin_to_val(i) for i in c['ins']]]
+        if c.get('role'):
+            return [1, [hev_to_val(e) for e in c['evs']], c['role']]
         return [1, [hev_to_val(e) for e in c['evs']]]
 
     def case_to_coq(self, c):
@@ -219,6 +259,8 @@ class Prop:
             return 'VB (gr_applies %s %s)' % (r, cbool(c['nbit']))
         if c['kind'] == 'gr':
             return 'run_gr_case %s' % clist([grin_to_coq(i) for i in c['ins']])
+        if any(e[0] in SIB_EVENTS for e in c['evs']):
+            return 'run_c_case %s' % clist([cev_to_coq(e) for e in c['evs']])
         return 'run_h_case %s' % clist([hev_to_coq(e) for e in c['evs']])
 
     def case_to_json(self, c):
@@ -248,8 +290,32 @@ class Prop:
         evs = []
         up = None
         n = rng.randint(4, 18)
+        sib = False        # mode 'sib': a second connection of the neighbour is open
+        lastup = None
         for _ in range(n):
             x = rng.random()
+            if mode == 'sib' and lastup is not None:
+                y = rng.random()
+                if not sib and y < 0.18:
+                    evs.append(('sib_open',)); sib = True
+                    continue
+                if sib and y < (0.25 if up is not None else 0.45):
+                    z = rng.random()
+                    if z < 0.45:
+                        evs.append(('sib_fail', rng.randint(0, 1)))
+                    else:
+                        lgr = lastup[4][0]
+                        rgr = rng.choice([lgr, None, None if lgr is None else ((lgr[0][0],), RT, rng.random() < 0.5)])
+                        lll = lastup[4][2]
+                        rll = rng.choice([lll, None])
+                        ev = sib_up(lastup, rgr, rll)
+                        evs.append(ev)
+                        if up is None:
+                            up = ('up', ev[1], ev[2], ev[3]); lastup = (up[0], up[1], up[2], up[3], (lgr, rgr, lll, rll))
+                    sib = False
+                    continue
+                if sib and up is None and x < 0.55:
+                    x = 0.6 + 0.4 * rng.random()       # no new connection of the first role while the second one is open
             if up is None:
                 if x < 0.55:
                     fams = rng.sample(F, rng.choice([1, 2, 2, 3]))
@@ -269,15 +335,15 @@ class Prop:
                             ll = tuple((f, LT) for f in lf) if lf and llm < 0.7 else None
                             if mode != 'clean' and rng.random() < 0.15:
                                 gr = None
-                    evs.append(('up', tuple(fams), gr, ll, derive_caps(rng, gr, ll))); up = evs[-1]
+                    evs.append(('up', tuple(fams), gr, ll, derive_caps(rng, gr, ll))); up = evs[-1]; lastup = up
                 elif x < 0.70:
                     evs.append(('rtimer',))
                 elif x < 0.85:
                     evs.append(('ltimer', rng.choice(F)))
                 elif x < 0.93 and mode in ('fail', 'any'):
                     evs.append(('fail',))
-                elif x < 0.97 and mode in ('force', 'any'):
-                    evs.append(('force',))
+                elif x < 0.97 and mode in ('force', 'any', 'sib'):
+                    evs.append(('force',)); sib = False
                 else:
                     evs.append(('rtimer',))
             else:
@@ -297,8 +363,8 @@ class Prop:
                     elif mode in ('admin', 'any') and rng.random() < 0.1:
                         evs.append(('admin', False))
                     evs.append(('down', r)); up = None
-                elif mode in ('force', 'any') and rng.random() < 0.4:
-                    evs.append(('force',)); up = None        # closes the live session
+                elif mode in ('force', 'any', 'sib') and rng.random() < 0.4:
+                    evs.append(('force',)); up = None; sib = False        # closes the live session (and a second connection)
                 else:
                     evs.append(('rtimer',) if rng.random() < 0.5 else ('ltimer', rng.choice(F)))
         return evs
@@ -317,6 +383,10 @@ class Prop:
                 hold = 3 if nxt is not None and nxt[0] == 'down' and nxt[1] == 6 else 90
                 caps = e[4] if len(e) > 4 else default_caps(e[2], e[3])
                 evs[k] = (e[0], e[1], e[2], e[3], caps, hold)
+            elif e[0] == 'sib_up':
+                nxt = next((x for x in evs[k + 1:] if x[0] in ('down', 'up')), None)
+                hold = 3 if nxt is not None and nxt[0] == 'down' and nxt[1] == 6 else 90
+                evs[k] = e[:5] + (hold,)
         return evs
 
     # ---- enumerated classes (every run)
@@ -436,6 +506,54 @@ class Prop:
                                                   ('up', F, gr, ll, default_caps(gr, ll)), ('ann', a, 0, False, False), ('down', 0)], False)))
         return cases
 
+    def sibling_cases(self, tier):
+        """a second connection of the same neighbour (the other slot of the ConnArbiter) around the drop of the Established
+        session: still in OpenSent when the session drops and failing afterwards (in OpenSent / OpenConfirm), failing before,
+        losing the collision against the Established session, reaching Established afterwards with the same GR, without GR,
+        with a subset, during the LLGR period; forced down together; both roles for the first session"""
+        a, b = FAMS[0], FAMS[1]
+        F = (a, b)
+        cases = []
+        for role in (0, 1):
+            for rel, grf, ll in self.relations():
+                for nb in ((False, True) if grf is not None else (False,)):
+                    gr = None if grf is None else (grf, RT, nb)
+                    up = ('up', F, gr, ll, default_caps(gr, ll))
+                    head = [up, ('ann', a, 0, False, False), ('ann', a, 1, True, False),
+                            ('ann', b, 0, False, False), ('ann', b, 2, True, True), ('eor', a)]
+                    same = sib_up(up, gr, ll)
+                    nogr = sib_up(up, None, None)
+                    sub = sib_up(up, None if grf is None else ((a,), RT, nb), None)
+                    expire = [('rtimer',), ('ltimer', a), ('ltimer', b)]
+                    reasons = [0, 1, 2, 3, 7] if role == 0 else [0, 2]
+                    if tier != 'quick' and role == 1:
+                        reasons = [0, 1, 2, 3, 7]
+                    for r in reasons:
+                        d = ('down', r)
+                        tails = [
+                            ('open_down_fail_opensent', [('sib_open',), d, ('sib_fail', 0)] + expire),
+                            ('open_down_fail_openconfirm', [('sib_open',), d, ('sib_fail', 1), ('fail',)] + expire),
+                            ('open_fail_down', [('sib_open',), ('sib_fail', 0), d] + expire),
+                            ('collision_then_down', [('sib_open',), ('sib_fail', 1), ('ann', a, 4, False, False), d] + expire),
+                            ('collision_up_then_down', [('sib_open',), same, ('ann', b, 4, False, False), d, ('fail',), ('rtimer',)]),
+                            ('open_down_up_same', [('sib_open',), d, same, ('ann', a, 4, False, False), ('eor', a), ('eor', b), ('down', 0), ('rtimer',)]),
+                            ('open_down_up_no_gr', [('sib_open',), d, nogr, ('ann', a, 4, False, False), ('rtimer',), ('ltimer', a), ('down', 0)]),
+                            ('open_down_up_gr_subset', [('sib_open',), d, sub, ('ann', a, 4, False, False), ('eor', b), ('eor', a), ('rtimer',), ('down', 0), ('rtimer',)]),
+                            ('open_down_llgr_up', [('sib_open',), d, ('rtimer',), same, ('eor', a), ('ltimer', b), ('eor', b)]),
+                            ('open_down_force', [('sib_open',), d, ('force',), ('rtimer',), ('ltimer', a)]),
+                            ('open_force', [('sib_open',), ('force',), ('rtimer',)]),
+                            ('open_admin_down_up', [('sib_open',), ('admin', True), d, same, ('ann', a, 4, False, False), ('down', 0), ('admin', False)]),
+                            ('down_open_fail', [d, ('sib_open',), ('sib_fail', 1)] + expire),
+                            ('down_open_up', [d, ('sib_open',), same, ('ann', b, 4, False, False), ('eor', a), ('eor', b)]),
+                            ('reopen', [('sib_open',), ('sib_fail', 0), ('sib_open',), d, ('sib_fail', 0), ('sib_open',), same, ('eor', a), ('eor', b)]),
+                        ]
+                        for tname, tail in tails:
+                            cases.append(dict(kind='h', role=role,
+                                              cls=['second_connection', 'role_%d' % role, 'rel_' + rel, 'reason_%d' % r,
+                                                   'nbit_%d' % nb, 'sib_' + tname],
+                                              evs=self.with_hold(head + tail, False)))
+        return cases
+
     def negotiation_cases(self):
         """boundary values of what is negotiated: restart time 0 / 1 / 4095, LLGR stale time 0 on either or both sides,
         1, 2^24-1, every N bit / R bit combination, empty and duplicate family lists, different orders, families
@@ -486,8 +604,9 @@ class Prop:
         # the glue: enumerated classes first
         cases += self.matrix_cases(tier)
         cases += self.negotiation_cases()
+        cases += self.sibling_cases(tier)
         nh = 800 if tier == 'quick' else 12000
-        modes = ['clean'] * 6 + ['nogr', 'any', 'any', 'fail', 'force', 'comm', 'admin', 'mixed', 'offfam']
+        modes = ['clean'] * 6 + ['nogr', 'any', 'any', 'fail', 'force', 'comm', 'admin', 'mixed', 'offfam', 'sib', 'sib']
         hold_budget = 6 if tier == 'quick' else 60
         for _ in range(nh):
             evs = self.rand_history(rng, rng.choice(modes))
@@ -495,7 +614,10 @@ class Prop:
             allow = n6 > 0 and n6 <= hold_budget
             if allow:
                 hold_budget -= n6
-            cases.append(dict(kind='h', evs=self.with_hold(evs, allow)))
+            c = dict(kind='h', evs=self.with_hold(evs, allow))
+            if any(e[0] in SIB_EVENTS for e in evs) and rng.random() < 0.5:
+                c['role'] = 1
+            cases.append(c)
         # gr_on_disconnect alone: every kind of reason, every NOTIFICATION code 0..8 x subcode 0..11, 255 in both
         # directions (the local Hard Reset, which no socket event produces, included), with and without the N bit
         for nb in (False, True):
@@ -613,13 +735,29 @@ def oracle_h(c, obs):
     helper_fams = set()    # families whose routes the property allows to be retained at this point
     fresh = {}             # (f, id) -> gen announced on the live session
     admin = False
+    sib = False            # a second connection of the neighbour is registered (before Established)
     prev = [0, 0, [], []]
     for k, (e, o) in enumerate(zip(evs, obs)):
         restarting, rt, lts, routes = o[:4]
         t = e[0]
+        if t == 'sib_up' and sib and sess is None:
+            # the second connection becomes the session (it was admitted before: admin-down is not looked at again)
+            sib = False; e = ('up', e[1], e[2], e[3]); t = 'up!'
         if t == 'admin':
             admin = e[1]
-        elif t == 'up' and sess is None and not admin:      # an admin-down peer's connection is refused
+        elif t == 'sib_open':
+            sib = sib or not admin
+        elif t in ('sib_fail', 'sib_up'):
+            # it ends before Established (sib_up while the session is Established: the collision it loses):
+            # nothing of the peer's GR state, timers or routes may change
+            if sib:
+                sib = False
+                if [restarting, rt, sorted(lts)] != [prev[0], prev[1], sorted(prev[2])]:
+                    return 'step %d: the end of a second connection that did not reach Established changed the helper state / timers (%s -> %s)' % (
+                        k, prev[:3], [restarting, rt, lts])
+                if sorted(routes) != sorted(prev[3]):
+                    return 'step %d: the end of a second connection that did not reach Established changed the routes' % k
+        elif (t == 'up' and sess is None and not admin) or t == 'up!':      # an admin-down peer's connection is refused
             sess = e; gen += 1
             grf = set(e[2][0]) if e[2] else set()
             awaiting = set(f for f in grf if f in helper_fams)
@@ -670,6 +808,7 @@ def oracle_h(c, obs):
             helper_fams.discard(e[1])
         elif t == 'force':
             helper_fams = set(lts)
+            sib = False
             if sess is not None:
                 # the live session is closed administratively: nothing of it may be retained
                 if routes:
